@@ -59,7 +59,7 @@ def _replay_search(a):
 def run(rep, tier, seed):
     from contracts.c02_wasserstein import all_contracts
     cs, table = all_contracts(tier)
-    cs = [c for c in cs if c.variant == "matching=False"]
+    cs = [c for c in cs if c.variant.startswith("matching=False")]
     run_contracts(rep, cs, table, tier=tier, pid="C02", replayers=[(r"wasserstein", _replay_search)])
     rep.assume("D4 scipy.optimize.linear_sum_assignment returns rows arange(n) and a column permutation of minimal total cost",
                "D5 sklearn pairwise_distances = Euclidean distance over all columns (in real arithmetic; its float cancellation is visible to the stand-in only)",
